@@ -616,6 +616,11 @@ func suiteStream(c *Ctx) {
 		data := make([]byte, n)
 		c.Rng.Read(data)
 		text := refEncode(m.alpha, m.pad, data)
+		// a long run of newlines inside one fragment (corpus: a model fuel bug found by proof work)
+		if i%25 == 7 && len(text) > 3 {
+			k := []int{37, 60, 1500}[c.Rng.Intn(3)]
+			text = append(append(append([]byte{}, text[:2]...), bytes.Repeat([]byte{'\n'}, k)...), text[2:]...)
+		}
 		// embedded newlines
 		if i%3 == 0 {
 			var t2 []byte
